@@ -81,6 +81,20 @@ def _cells():
         B(f"{nm}:real", f"utils.{nm}", [REAL], argclass="real dtype")
         B(f"{nm}:complex", f"utils.{nm}", [CPLX], argclass="complex dtype")
         B(f"{nm}:sparse", f"utils.{nm}", [SPARSE], argclass="sparse where dense required")
+    # scalar multiplication of a SparseQuaternionMatrix is defined for real scalars only; @ for
+    # matrices only - every other operand type is rejected (TypeError / ValueError)
+    for opn in ("__mul__", "__rmul__"):
+        for tag_, v_ in (("2j", {"gen": "cval", "re": 0.0, "im": 2.0}), ("1+1j", {"gen": "cval", "re": 1.0, "im": 1.0}),
+                         ("str", "x"), ("None", None), ("quat", {"gen": "qscalar", "q": [1.0, 2.0, 3.0, 4.0]}),
+                         ("list", {"gen": "list", "items": [1, 2]}), ("array", REAL)):
+            B(f"sparse{opn}:{tag_}", f"utils.SparseQuaternionMatrix.{opn}", [SPARSE, v_], argclass="wrong operand type")
+    for tag_, v_ in (("2j", {"gen": "cval", "re": 0.0, "im": 2.0}), ("float", 2.0), ("int", 3), ("str", "x"), ("None", None),
+                     ("wide", {"gen": "gauss", "m": 3, "n": 5, "seed": 4})):
+        B(f"sparse__matmul__:{tag_}", "utils.SparseQuaternionMatrix.__matmul__", [SPARSE, v_],
+          argclass="wrong operand type" if tag_ != "wide" else "inconsistent shape pair")
+    for tag_, v_ in (("float", 2.0), ("int", 3), ("zero", 0.0), ("neg", -1.5)):
+        OK(f"in:sparse__mul__:{tag_}", "utils.SparseQuaternionMatrix.__mul__", [SPARSE, v_])
+        OK(f"in:sparse__rmul__:{tag_}", "utils.SparseQuaternionMatrix.__rmul__", [SPARSE, v_])
     B("spectral_norm_2:real", "utils.spectral_norm_2", [REAL], argclass="real dtype")
     B("spectral_norm_2:sparse", "utils.spectral_norm_2", [SPARSE], argclass="sparse where dense required")
     # unknown option values of every flavour a weakened test could let through: other
